@@ -156,7 +156,7 @@ def h_sets_and_options():
     from dateutil import rrule as RR
     from dateutil import tz
     types = dict(i=int, n=int)
-    CASES = ["set", "forceset", "compatible", "tzid", "utc-z", "ignoretz", "tzids-map", "unknown-part", "bad-freq", "bad-value", "bad-wd",
+    CASES = ["cold-rdate", "set", "forceset", "compatible", "tzid", "utc-z", "ignoretz", "tzids-map", "unknown-part", "bad-freq", "bad-value", "bad-wd",
              "unknown-prop", "empty", "cache"]
 
     def fn(ctx, i, n):
@@ -168,7 +168,21 @@ def h_sets_and_options():
             return None          # all inputs are pinned: the check itself runs in the native replay of this path's witness
         with ctx.untraced():
             key = "options:" + case
-            if case == "set":
+            if case == "cold-rdate":
+                # history independence: the very first rrulestr call of a fresh interpreter gets RRULE + RDATE text with dtstart=
+                import subprocess
+                import sys as _sys
+                code = ("import sys, datetime; sys.path.insert(0, %r)\n"
+                        "from dateutil import rrule as RR\n"
+                        "s = datetime.datetime(1997, 9, 2, 9, 0)\n"
+                        "r = RR.rrulestr('RRULE:FREQ=DAILY;COUNT=%d\\nRDATE:19971224T090000', dtstart=s)\n"
+                        "e = RR.rruleset(); e.rrule(RR.rrule(RR.DAILY, count=%d, dtstart=s)); e.rdate(datetime.datetime(1997, 12, 24, 9, 0))\n"
+                        "print('SAME' if list(r) == list(e) else 'DIFFERENT')\n") % (chx.REPO_SRC, n, n)
+                pr = subprocess.run([_sys.executable, "-c", code], capture_output=True, text=True, timeout=120)
+                ctx.check(pr.returncode == 0 and "SAME" in pr.stdout,
+                          "first rrulestr call of a fresh interpreter (RRULE+RDATE, dtstart=) fails or differs: %s" % (pr.stderr.strip().splitlines()[-1:] or pr.stdout.strip(),),
+                          key=key)
+            elif case == "set":
                 text = ("DTSTART:19970902T090000\nRRULE:FREQ=DAILY;COUNT=%d\nRRULE:FREQ=WEEKLY;COUNT=2\nRDATE:19970910T090000\n"
                         "EXRULE:FREQ=DAILY;INTERVAL=2;COUNT=2\nEXDATE:19970904T090000" % (n + 2))
                 rs = RR.rrulestr(text)
